@@ -6,11 +6,15 @@ From EV Require Import Res Arr ToCsv ToCsvSpec ToCsvHist.
 Import ListNotations.
 Open Scope Z_scope.
 
-Definition call_spec (st:store) (c:call) : res bytes :=
-  let cf := resolve st (c_cf c) in
-  if (0 <? c_chunk c) && cf_valid (c_fr c) cf
-  then Ok (concat (map fix_line (spec_table (c_fr c) (c_rf c) cf)))
+(* the closed form of one call: what to_csv returns, as a function of its arguments (theorem
+   to_csv_closed_form of Props/C18.v: the statement-level model computes exactly this) *)
+Definition to_csv_closed (fr:frame) (rf:rowfilter) (cf:colfilter) (chunk:Z) : res bytes :=
+  if (0 <? chunk) && cf_valid fr cf
+  then Ok (concat (map fix_line (spec_table fr rf cf)))
   else Raise E_ValueError.
+
+Definition call_spec (st:store) (c:call) : res bytes :=
+  to_csv_closed (c_fr c) (c_rf c) (resolve st (c_cf c)) (c_chunk c).
 
 Fixpoint spec_hist (st:store) (file:option bytes) (calls:list call) : list obs :=
   match calls with
